@@ -1,6 +1,7 @@
 package objecttree
 
 import (
+	"bytes"
 	"errors"
 
 	"github.com/anyproto/any-sync/commonspace/object/tree/treechangeproto"
@@ -10,6 +11,7 @@ import (
 
 var (
 	ErrEmptyChange       = errors.New("change payload should not be empty")
+	ErrNonCanonicalRaw   = errors.New("raw change is not canonically encoded")
 	ErrMissingEncryptKey = errors.New("encrypted change requires a read key")
 )
 
@@ -108,6 +110,10 @@ func (c *changeBuilder) Unmarshall(rawIdChange *treechangeproto.RawTreeChangeWit
 	if err != nil {
 		return
 	}
+	if verify && !isCanonicalRawChange(raw, rawIdChange.GetRawChange()) {
+		err = ErrNonCanonicalRaw
+		return
+	}
 	ch, err = c.unmarshallRawChange(raw, rawIdChange.Id)
 	if err != nil {
 		return
@@ -126,6 +132,19 @@ func (c *changeBuilder) Unmarshall(rawIdChange *treechangeproto.RawTreeChangeWit
 		}
 	}
 	return
+}
+
+// isCanonicalRawChange reports whether data is byte-for-byte the encoding of {Payload, Signature}.
+// The id is the hash of ALL the bytes while the signature covers only the payload: without this check anybody could
+// take a signed change, add an unknown field (or reorder / repeat fields, or use non-minimal varints), recompute the
+// id, and have the same signed payload attached and stored again under as many new ids as they like.
+func isCanonicalRawChange(raw *treechangeproto.RawTreeChange, data []byte) bool {
+	canon := &treechangeproto.RawTreeChange{Payload: raw.Payload, Signature: raw.Signature}
+	if canon.SizeVT() != len(data) {
+		return false
+	}
+	encoded, err := canon.MarshalVT()
+	return err == nil && bytes.Equal(encoded, data)
 }
 
 func (c *changeBuilder) UnmarshallReduced(rawIdChange *treechangeproto.RawTreeChangeWithId) (ch *Change, err error) {
